@@ -80,6 +80,40 @@ func VerifReplayC07() {
 	kind := nd.Int("kind")
 	n := nd.Int("n")
 	switch kind {
+	case 10, 11, 12:
+		// cross-path witness: the solver supplies the input x itself (accepted through one path of the decoder) and
+		// the error pattern e (x^e accepted through another path)
+		c := &codec{}
+		l := 6
+		if kind == 11 {
+			c = &codec{compressor: lz4.Compressor{}}
+			l = 8
+		}
+		if kind == 12 {
+			l = n + 4
+		}
+		x := nd.Bytes("x", l)
+		e := nd.Bytes("e", l)
+		y := make([]byte, l)
+		nonzero := false
+		for i := range x {
+			y[i] = x[i] ^ e[i]
+			nonzero = nonzero || e[i] != 0
+		}
+		nd.Assert(nonzero, "the error pattern is not empty")
+		if kind == 12 {
+			p, err := c.decodeSegmentPayload(&Header{UncompressedPayloadLength: int32(n)}, bytes.NewReader(x))
+			nd.Assert(err == nil && p != nil, "the uncorrupted payload is accepted")
+			q, err := c.decodeSegmentPayload(&Header{UncompressedPayloadLength: int32(n)}, bytes.NewReader(y))
+			nd.Assert(err != nil, "corrupted payload is rejected")
+			nd.Assert(q == nil || err == nil, "no payload returned on rejection")
+		} else {
+			h, err := c.decodeSegmentHeader(bytes.NewReader(x))
+			nd.Assert(err == nil && h != nil, "the uncorrupted header is accepted")
+			g, err := c.decodeSegmentHeader(bytes.NewReader(y))
+			nd.Assert(err != nil, "corrupted header is rejected")
+			nd.Assert(g == nil || err == nil, "no header returned on rejection")
+		}
 	case 0, 1:
 		c := &codec{}
 		buf := &bytes.Buffer{}
